@@ -25,7 +25,34 @@ PROPS = {
         "streams": [S("ledger", 60, 3000)],
         "rule": LEDGER_RULE,
         "partial": "methods of non-token contracts are parameters of the model (their observed descendant sends are inputs, "
-                   "checked for funding and exact refund); genesis consistency is C20",
+                   "checked for funding and exact refund); genesis consistency (T5) is C20; unconfirmed-pool states and "
+                   "rollbacks are covered by the stream's monitor, not by theorems; T3 takes the send-time check "
+                   "MaxSupply >= TotalSupply of an issue call as a hypothesis on admissible events (the model does not repeat it "
+                   "at receive time)",
+        "assumptions": ["hashes are opaque identifiers (collision-free): new send hashes are fresh and descendants pairwise distinct"],
+    },
+    "C04": {
+        "module": "ZenonVerif.Props.C04",
+        "streams": [S("ledger", 60, 3000)],
+        "rule": LEDGER_RULE,
+        "partial": "state-level theorems about the current chain of one node: reorganisation, replacement of unconfirmed "
+                   "blocks and restart (DESIGN C04-T5) are not modelled — they are covered by the stream's monitors only; "
+                   "the sequencer is modelled as the list of confirmed sends filtered by addressee, not as the stored "
+                   "front/back counters; below ReceiverMismatchEnforcementHeight only per-account at-most-once and FIFO hold (F8)",
+        "assumptions": ["hashes are opaque identifiers (collision-free): new send hashes are fresh and descendants pairwise distinct"],
+    },
+    "C09": {
+        "module": "ZenonVerif.Props.C09",
+        "streams": [S("ledger", 60, 3000)],
+        "rule": LEDGER_RULE,
+        "partial": "methods of non-token contracts are parameters of the model (status and descendants are observed inputs), so "
+                   "termination / panic-freedom of the Go methods and of the ABI decoder (DESIGN C09-T3..T5) is established by "
+                   "correspondence only; proved: complete-or-exact-refund with the contract's balance delta, the inbox advances by "
+                   "exactly one, the refund of whatever is next in line is always accepted for a non-token contract, and the token "
+                   "contract always has an accepted outcome when the zero token standard has no storage entry (negative witness "
+                   "without it). The model's applySend does not run the destination contract's method lookup / ValidateSendBlock: "
+                   "in Go a refund whose recipient is itself an embedded contract (empty call data) is refused by applySend, so "
+                   "refund_always_possible transfers to the code for non-embedded senders only",
         "assumptions": ["hashes are opaque identifiers (collision-free)"],
     },
     "C07": {
